@@ -12,7 +12,7 @@ RULE = ('L1: every single-clause predicate p(t1..tk) :- B, k<=2 over 13 head-arg
         'queried with EVERY tuple of query-argument shapes (unbound, aliased, partial, ground). L2: every program '
         'of <=2 [thorough: 3] clauses over p/1,q/1 with head argument in {X,a,b,f(X)} and body of <=1 goal '
         '[thorough, 2-clause programs: <=2 goals] over p|q x {X,Y,a,b,f(X)} (direct, mutual and left recursion, '
-        'duplicate clauses), queries p(A) p(a) p(f(A)) q(A). L2b: every sequence of 3 [thorough: 4] clauses of ONE predicate r/2 over 6 head shapes x 4 bodies (the same variable name as plain head argument, nested, repeated or body-only in different clauses). L3: append/member/len/nat/rev/in/path idioms over '
+        'duplicate clauses), queries p(A) p(a) p(f(A)) q(A). L1b: every body of 2 or 3 [thorough: 4] goals over 10 goals whose outcome depends on WHEN they are called (callees using \\=, a cut, negation; explicit unifications). L2b: every sequence of 3 [thorough: 4] clauses of ONE predicate r/2 over 6 head shapes x 4 bodies (the same variable name as plain head argument, nested, repeated or body-only in different clauses). L3: append/member/len/nat/rev/in/path idioms over '
         'every DAG on 3 nodes in every argument mode. L4: 6 templates with many anonymous variables (alone and combined in one program, so that the program-wide numbering of _ reaches 13) x EVERY injective naming of their two named variables from a menu of 44 names (_1.._14, look-alikes of the compiler\'s own argument, loop, flag and prefix names, Python constants). Each program is compiled, loaded into a fresh engine and '
         'every query is compared answer by answer (bindings up to renaming incl. aliasing, order, multiplicity, '
         'termination under a deterministic step budget, no exception) with RefProlog. states = distinct '
@@ -118,6 +118,31 @@ def l2_cases(nclauses, maxgoals):
 def l2_case(cl, prog):
     return Case([([cl[i] for i in prog], True, False)], [], L2_QUERIES, repeat=2, ref_steps=3000, ref_depth=40,
                 budget=True)
+
+
+# ---------------------------------------------------------------- L1b: goal order
+# Every body of 2 or 3 goals over calls whose outcome depends on how far their arguments are bound
+# when they are called (callees using \= or a cut, plain facts, explicit unifications): answers
+# must be those of strict left-to-right execution.
+L1B_SUPPORT = [(F('d', X), call(F('\\=', X, A('a')))),
+               (F('c1', X), (',', call(F('=', X, A('a'))), ('!',))), (F('c1', ('v', ('_', 1))), None),
+               (F('q', A('a')), None), (F('q', A('b')), None),
+               (F('nq', X), ('\\+', call(F('q', X))))]
+L1B_GOALS = [call(F('d', X)), call(F('c1', X)), call(F('q', X)), call(F('nq', X)), call(F('=', X, A('b'))), call(F('=', X, A('a'))),
+             call(F('=', X, Y)), call(F('d', Y)), call(F('=', Y, A('c'))), call(F('\\=', X, Y))]
+
+
+def l1b_cases(ngoals):
+    idx = 0
+    for gs in itertools.product(range(len(L1B_GOALS)), repeat=ngoals):
+        yield idx, gs
+        idx += 1
+
+
+def l1b_case(gs):
+    clause = (F('p', X, Y), conj(*[L1B_GOALS[g] for g in gs]))
+    queries = [F('p', QA, QB), F('p', A('b'), QB), F('p', QA, A('a')), F('p', QA, QA)]
+    return Case([(L1B_SUPPORT, True, True), ([clause], True, False)], [], queries, repeat=1, budget=True), clause
 
 
 # ---------------------------------------------------------------- L2b: clause sequences of one predicate
@@ -310,6 +335,9 @@ def plan(tier):
     sh += [('L3', k, 8) for k in range(8)]
     sh += [('L4', k, NSH) for k in range(NSH)]
     sh += [('L2b', k, NSH, 3) for k in range(NSH)]
+    sh += [('L1b', k, 16, 2) for k in range(16)] + [('L1b', k, NSH, 3) for k in range(NSH)]
+    if not q:
+        sh += [('L1b', k, 4 * NSH, 4) for k in range(4 * NSH)]
     if not q:
         sh += [('L2b', k, 4 * NSH, 4) for k in range(4 * NSH)]
     return sh
@@ -341,6 +369,18 @@ def run_shard(spec):
             account(acc, ('L2', ncl, maxgoals, idx), case, res, key=case.describe()['scripts'][0]['text'])
             if idx % 5003 == 0 and res['status'] == 'ok' and res['nontrivial']:
                 acc.sample({'layer': 'L2', 'program': case.describe()['scripts'][0]['text']}, limit=1)
+    elif spec[0] == 'L1b':
+        _, k, n, ng = spec
+        for idx, gs in l1b_cases(ng):
+            if idx % n != k:
+                continue
+            case, clause = l1b_case(gs)
+            res = case.run()
+            if res['status'] == 'violation':
+                res['sig'] = 'goal-order:' + res['sig']
+            account(acc, ('L1b', ng, idx), case, res, key=show_clause(clause))
+            if idx % 499 == 0 and res['status'] == 'ok' and res['nontrivial']:
+                acc.sample({'layer': 'L1b', 'clause': show_clause(clause)}, limit=1)
     elif spec[0] == 'L2b':
         _, k, n, ncl = spec
         cl = l2b_clauses()
